@@ -28,7 +28,7 @@ K = dict(GcRequest=1, GcClearRequest=2, MonMakeRequest=3, MonRequested=4, MonPar
          Surrender=33, SurrenderDone=34, Respawn=35, InitialSpawn=36, LastParkedEnter=37, GoalStarted=38,
          GoalCompleted=39, MutatorsPaused=40, SchedSentinels=41, UpdateBuckets=42, StopRequest=43, BucketPollBatch=44,
          VmStopBegin=64, VmStopEnd=65, VmScanMutator=66, VmScanVmRoots=67, VmResume=68, VmBlockEnter=69,
-         VmBlockLeave=70, VmProcessWeak=72, VmForwardWeak=73)
+         VmBlockLeave=70, VmProcessWeak=72, VmForwardWeak=73, VmMisc=84)
 KEEP = set(range(1, 45)) | {64, 65, 66, 67, 68, 69, 70, 72, 73}
 BATCH_MOVE, SOLID, UNSOLID, OPEN_SOLID = 200, 202, 203, 204
 # failures every scheduler check reports: the log is not a run of the model / the run did not finish
@@ -39,6 +39,13 @@ STOP_KEYS = ("sched:exit-during-gc", "sched:stop-request-lost", "sched:join-coun
 # callback points of one GC at which hx_gc's `forkgc` / `shutdowngc` make the request (rt.rs PT_*)
 STOP_POINTS = {0: "stop_all_mutators", 1: "scan_vm_specific_roots", 2: "process_weak_refs", 3: "resume_mutators"}
 M40 = 1 << 40
+# requester protocol (C11 last clause): the events the `reqm` monitor and the requester oracles look at.
+# VmMisc(4, m) = mutator m's thread enters handle_user_collection_request, VmMisc(5, 2m + ret) = it returned `ret`,
+# VmMisc(3, m) = a `gc2`/`gcn` helper thread entered its safe region after the call returned
+REQ_KINDS = {1, 2, 65, 68, 69, 70, 84}
+REQ_KEYS = ("gc:requester-not-blocked", "gc:request-not-served", "gc:merged-request-count", "gc:request-result",
+            "gc:stop-with-running-requester", "req:not-enabled", "req:shape", "req:parse", "req:monitor-crash",
+            "sched:gc2-vacuous")
 
 
 # ------------------------------------------------------------------------------------------------
@@ -188,6 +195,93 @@ def forkgc_programs(rng, count, plans=None, prefix="g"):
         # every op of these small programs takes milliseconds: a lost stop request shows after 25 s instead of 60 s
         progs.append(Prog(f"{prefix}{i}-{plan}-w{w}-pt{''.join(map(str, points))}{'-sd' if end else ''}", plan, w, body,
                           yseed=ys, tags=tags, watchdog=25))
+    return progs
+
+
+def body_gc2(rng, plan, rounds, mutators=2, n_wide=1, fields=64, depth=60, eph=0, gcn=True):
+    """Several mutators request a collection at the same moment: `gc2 mA mB exhaustive force skewA skewB safeA safeB`
+    (driver = mA, a helper mutator thread = mB; after a spin rendezvous each spins `skew` iterations, or — `safe` —
+    sleeps `skew` microseconds inside a safe region, then calls handle_user_collection_request) and
+    `gcn exhaustive force m:skew:safe ...` (more than two requesters), mixed with ordinary `gc`s and allocation."""
+    mutators = max(2, mutators)
+    L = body_storm(rng, plan, n_wide=n_wide, fields=fields, depth=depth, gcs=0, mutators=mutators, eph=eph)
+    p = L.append
+    nid = [200000]
+
+    def garbage():
+        for m in range(mutators):
+            for _ in range(6):
+                nid[0] += 1
+                p(f"alloc {m} {nid[0]} 1 {rng.choice([16, 512, 4000])} 8 0 Default {rng.randrange(0, 8)}")
+    spins = [0, 0, 50, 500, 3000, 20000, 100000]
+    sleeps = [0, 100, 1000, 5000, 20000]
+    for r in range(rounds):
+        ma, mb = rng.sample(range(mutators), 2)
+        shape = (r + rng.randrange(2)) % 6
+        if shape == 0:      # dead heat
+            sa, sb, fa, fb = 0, 0, 0, 0
+        elif shape == 1:    # the driver is late
+            sa, sb, fa, fb = rng.choice(spins[2:]), 0, 0, 0
+        elif shape == 2:    # the helper is late
+            sa, sb, fa, fb = 0, rng.choice(spins[2:]), 0, 0
+        elif shape == 3:    # both random
+            sa, sb, fa, fb = rng.choice(spins), rng.choice(spins), 0, 0
+        elif shape == 4:    # the helper is in native code while the driver requests (may come back after the pause)
+            sa, sb, fa, fb = rng.choice(spins[:4]), rng.choice(sleeps), 0, 1
+        else:               # the driver is in native code while the helper requests
+            sa, sb, fa, fb = rng.choice(sleeps), rng.choice(spins[:4]), 1, 0
+        p(f"gc2 {ma} {mb} {r % 2} {0 if r % 5 == 4 else 1} {sa} {sb} {fa} {fb}")
+        p("events")
+        garbage()
+        if r % 3 == 1:
+            p(f"gc {rng.randrange(mutators)} {rng.randrange(2)}")
+            p("events")
+        if gcn and r % 3 == 2 and mutators >= 3:
+            ms = rng.sample(range(mutators), rng.choice([3, mutators]))
+            specs = []
+            for m in ms:
+                if rng.random() < 0.25:
+                    specs.append(f"{m}:{rng.choice(sleeps)}:1")
+                else:
+                    specs.append(f"{m}:{rng.choice(spins)}:0")
+            p(f"gcn {rng.randrange(2)} 1 " + " ".join(specs))
+            p("events")
+            garbage()
+    p("gc 0 1")
+    p("events")
+    return L
+
+
+def gc2_programs(rng, count, plans=None, prefix="q"):
+    """`gc2` / `gcn` programs: all collecting plans, 1..8 workers, yield seeds (= seeded skew jitter) armed in 2 of 3."""
+    plans = plans or ALL_PLANS
+    progs = []
+    workers_pool = [1, 2, 4, 8, 3, 6]
+    for i in range(count):
+        plan = plans[i % len(plans)]
+        w = workers_pool[(i // len(plans) + i) % len(workers_pool)]
+        muts = [2, 3, 4][i % 3]
+        body = body_gc2(rng, plan, rounds=[5, 7, 6][i % 3], mutators=muts, n_wide=rng.choice([1, 2]),
+                        fields=rng.choice([64, 300]), depth=rng.choice([40, 200]), eph=i % 2)
+        ys = 0 if i % 3 == 2 else rng.randrange(1, 1 << 30)
+        progs.append(Prog(f"{prefix}{i}-{plan}-w{w}-m{muts}", plan, w, body, yseed=ys, tags={"gc2"}, watchdog=25))
+    return progs
+
+
+def nogc_gc2_programs(rng, count):
+    """The legitimate `false`: on NoGC (`collects_garbage = false`) the trigger refuses every user request, nobody blocks,
+    no request is made (`en=0`, `false,0,…`): the only situation in which a requester may come back unblocked."""
+    progs = []
+    for i in range(count):
+        L = ["bind 1", "bind 2"]
+        for k in range(30):
+            L.append(f"alloc {k % 3} {k + 1} 1 {rng.choice([16, 512])} 8 0 Default {k % 8}")
+        for r in range(4):
+            ma, mb = rng.sample(range(3), 2)
+            L += [f"gc2 {ma} {mb} {r % 2} {(r + i) % 2} {rng.choice([0, 500])} {rng.choice([0, 500])} 0 {r % 2}", "events"]
+        L += ["gc 0 1", f"gcn 1 1 0:0:0 1:{rng.choice([0, 100])}:1 2:50:0", "events"]
+        progs.append(Prog(f"n{i}-NoGC-w{1 + i % 2}", "NoGC", 1 + i % 2, L, yseed=rng.randrange(1 << 20), tags={"gc2", "gc2-refused"},
+                          watchdog=25))
     return progs
 
 
@@ -762,6 +856,173 @@ def never_run(evs, stages):
 
 
 # ------------------------------------------------------------------------------------------------
+# requester protocol (C11: "a mutator that requested a GC is blocked until that GC has ended")
+# ------------------------------------------------------------------------------------------------
+
+def req_tokens(evs):
+    return [e for e in evs if e[2] in REQ_KINDS]
+
+
+def lean_req_replay(model_exe, toks, chunk=400):
+    """`mmtk_model reqm`: the requester events must be a run of Model/Requesters.lean (code variant)."""
+    lines = ["reqm new"]
+    for i in range(0, len(toks), chunk):
+        lines.append("reqm ev " + " ".join(":".join(str(x) for x in t) for t in toks[i:i + chunk]))
+    lines.append("reqm end")
+    outs, rc, err = E.run_lines(model_exe, lines, timeout=600)
+    if rc != 0 or len(outs) != len(lines):
+        return "viol req:monitor-crash rc=%s %s" % (rc, err[-300:]), None
+    for o in outs[1:]:
+        if o.startswith("viol"):
+            return o, None
+    stats = dict(kv.split("=") for kv in outs[-1].split()[1:] if "=" in kv)
+    return outs[-1], {k: int(v) for k, v in stats.items()}
+
+
+GC2_FIELD = re.compile(r"^(a|b|r\d+)=(true|false),(\d+),(\d+),(\d+)$")
+
+
+def parse_gc2(op, out):
+    """`gc2`/`gcn` answer -> dict(gcs, en, reqs=[(label, mutator, ret, blocked, before, after)]) or None"""
+    t = op.split()
+    if not t or t[0] not in ("gc2", "gcn") or not out.startswith("ok gcs="):
+        return None
+    f = out.split(" #")[0].split()
+    d = {"gcs": int(f[1].split("=")[1]), "en": 1, "reqs": [], "op": op}
+    ms = [int(t[1]), int(t[2])] if t[0] == "gc2" else [int(x.split(":")[0]) for x in t[3:]]
+    k = 0
+    for x in f[2:]:
+        if x.startswith("en="):
+            d["en"] = int(x[3:])
+            continue
+        m = GC2_FIELD.match(x)
+        if m:
+            d["reqs"].append((m.group(1), ms[k] if k < len(ms) else -1, m.group(2) == "true", int(m.group(3)),
+                              int(m.group(4)), int(m.group(5))))
+            k += 1
+    d["force"] = (t[4] == "1") if (t[0] == "gc2" and len(t) > 4) else (t[0] == "gc2" or t[2] == "1")
+    return d
+
+
+def oracle_requesters(prog_lines, out_lines, evs, collects, concurrent):
+    """The last clause of C11 evaluated on what the implementation printed / logged (independent of the Lean model).
+    (1) on every `gc2`/`gcn` answer: each requester of an enabled request got `true`, entered block_for_gc and saw the
+    pause counter advance (`gcs_at_return > gcs_before`); a `false` without blocking is legitimate only when hx_gc says
+    that the trigger would refuse the request (`en=0`: plan does not collect, or not forced and ignored); all requests
+    are served (`gcs` at the end above every `gcs_before`); k merged requests lead to 1..k collections.
+    (2) on the event log: every thread that made a GcRequest inside a user-GC call (VmMisc 4 .. 5) logged VmBlockEnter
+    afterwards and a VmResume happened between its request and its return."""
+    out, st = [], defaultdict(int)
+    for op, o in zip(prog_lines, out_lines):
+        g = parse_gc2(op, o)
+        if g is None:
+            if op.split()[:1] and op.split()[0] in ("gc2", "gcn") and not o.startswith("err"):
+                out.append(("gc:request-result", f"`{op}` answered `{o[:120]}`"))
+            continue
+        st["rounds"] += 1
+        st[f"requesters:{len(g['reqs'])}"] += 1
+        en = g["en"] == 1
+        if en != collects:
+            # hx_gc computes `en` with the trigger's own condition; the programs never set ignore_system_gc, so
+            # a request is refused exactly when the plan does not collect (NoGC)
+            out.append(("gc:request-result", f"`{op}`: en={g['en']} but the plan's collects_garbage is {collects}"))
+        k = len(g["reqs"])
+        if k == 0:
+            out.append(("gc:request-result", f"`{op}` answered `{o[:120]}`: no requester reported"))
+            continue
+        lo = min(r[4] for r in g["reqs"])
+        hi = max(r[4] for r in g["reqs"])
+        for (lab, m, ret, blocked, before, after) in g["reqs"]:
+            if en:
+                if not ret or blocked == 0 or after <= before:
+                    out.append(("gc:requester-not-blocked",
+                                f"`{op}` -> `{o}`: mutator {m} ({lab}) requested a collection when {before} pauses had completed; "
+                                f"its call returned {str(ret).lower()} with {after} pauses completed after {blocked} block_for_gc "
+                                "calls: it was not blocked until a collection ended"))
+            else:
+                st["disabled"] += 1
+                if ret or blocked:
+                    out.append(("gc:request-result", f"`{op}` -> `{o}`: mutator {m} got {ret}/{blocked} although the request is refused"))
+        if en:
+            n = g["gcs"] - lo
+            if g["gcs"] <= hi:
+                out.append(("gc:request-not-served", f"`{op}` -> `{o}`: no collection completed after the last request"))
+            cap = (2 * k + 1) if concurrent else k
+            if n < 1 or n > cap:
+                out.append(("gc:merged-request-count", f"`{op}` -> `{o}`: {k} simultaneous requests led to {n} pauses (expected 1..{cap})"))
+            st[f"pauses:{min(n, 3)}{'+' if n >= 3 else ''}"] += 1
+            if len({r[5] for r in g["reqs"]}) == 1 and n >= 1:
+                st["all_requesters_saw_the_same_pause_count"] += 1
+    # (2) log based
+    open_call = {}            # tid -> dict(m, req=index of GcRequest or None, block=bool, resumes_at_req)
+    resumes = 0
+    order = []
+    for (seq, tid, k, a, b) in evs:
+        if k == K["VmResume"]:
+            resumes += 1
+        elif k == K["VmMisc"] and a == 4:
+            open_call[tid] = dict(m=b, req=None, elided=None, block=False, resumes=None)
+        elif k == K["GcRequest"] and tid in open_call and open_call[tid]["req"] is None:
+            open_call[tid].update(req=seq, elided=a, resumes=resumes)
+            others = [t for t, c in open_call.items() if t != tid and c["req"] is not None]
+            st["log:requests"] += 1
+            if a == 1:
+                st["log:merged_requests"] += 1
+            if others:
+                st["log:requests_while_another_requester_in_flight"] += 1
+                st["log:second_requester=" + ("helper" if tid != 0 else "driver")] += 1
+        elif k == K["VmBlockEnter"] and tid in open_call:
+            open_call[tid]["block"] = True
+        elif k == K["VmMisc"] and a == 5 and tid in open_call:
+            c = open_call.pop(tid)
+            ret = b % 2 == 1
+            if c["req"] is not None:
+                if not c["block"] or resumes <= c["resumes"] or not ret:
+                    out.append(("gc:requester-not-blocked",
+                                f"event log: mutator {c['m']} (thread {tid}) made a GC request (request_flag already set: {c['elided']}) "
+                                f"and its call returned {str(ret).lower()} — block_for_gc entered: {c['block']}, pauses ended meanwhile: "
+                                f"{resumes - c['resumes']}"))
+            elif ret:
+                out.append(("gc:request-result", f"event log: mutator {c['m']} got `true` from a call that made no request"))
+    seen, res = set(), []
+    for key, what in out:
+        if key not in seen:
+            seen.add(key)
+            res.append((key, what))
+    return res, st
+
+
+def req_log_mutants(evs):
+    """Corrupted requester logs the `reqm` monitor must reject: the seeded regression's shape (a merged requester
+    comes back without block_for_gc) and a requester that leaves block_for_gc before the pause ended."""
+    rq = req_tokens(evs)
+    out = []
+    # a call that blocked: find (i4, i5) on one thread with VmBlockEnter inside
+    for i, e in enumerate(rq):
+        if e[2] == K["VmMisc"] and e[3] == 4:
+            t = e[1]
+            j = next((j for j in range(i + 1, len(rq)) if rq[j][1] == t and rq[j][2] == K["VmMisc"] and rq[j][3] == 5), None)
+            if j is None:
+                continue
+            inner = [x for x in range(i, j) if rq[x][1] == t and rq[x][2] in (K["VmBlockEnter"], K["VmBlockLeave"])]
+            if len(inner) == 2 and any(rq[x][1] == t and rq[x][2] == K["GcRequest"] for x in range(i, j)):
+                e5 = rq[j]
+                skip = [x for n, x in enumerate(rq) if n not in inner]
+                skip = [((x[0], x[1], x[2], x[3], x[4] - 1) if x is e5 else x) for x in skip]
+                # the return (now `false`) is moved to where the block was entered: before the pause
+                skip.remove((e5[0], e5[1], e5[2], e5[3], e5[4] - 1))
+                pos = next(n for n, x in enumerate(skip) if x[0] > rq[inner[0]][0])
+                out.append(("requester-returns-false-without-blocking", skip[:pos] + [(rq[inner[0]][0], t, K["VmMisc"], 5, e5[4] - 1)] + skip[pos:]))
+                # leaves block_for_gc right after entering it
+                early = [x for n, x in enumerate(rq) if n != inner[1]]
+                pos = next(n for n, x in enumerate(early) if x is rq[inner[0]]) + 1
+                lv = rq[inner[1]]
+                out.append(("requester-unblocked-before-pause-end", early[:pos] + [(rq[inner[0]][0], t, lv[2], lv[3], lv[4])] + early[pos:]))
+                break
+    return out
+
+
+# ------------------------------------------------------------------------------------------------
 # the common check driver
 # ------------------------------------------------------------------------------------------------
 
@@ -795,6 +1056,10 @@ def run_all(progs, mut_open_plans=("ConcurrentImmix",), threads=6):
         r.toks = annotate(r.evs, p.workers)
         r.verdict, r.stats = lean_replay(model, r.toks, p.workers, p.plan in mut_open_plans)
         r.oracle = oracle(r.evs, r.rc, r.lines, stages, r.fwd)
+        r.req_verdict, r.req_stats = lean_req_replay(model, req_tokens(r.evs))
+        collects = cons.get("collects", "1") in ("1", "true")
+        orc2, r.gc2stats = oracle_requesters(p.text(), r.lines, r.evs, collects, cons.get("concurrent") in ("1", "true"))
+        r.oracle += orc2
         r.stopstats = stop_request_stats(r.evs)
         miss = never_run(r.evs, stages) if r.rc == 0 else {}
         if miss:
@@ -938,6 +1203,13 @@ def monitor_selftest(model, results):
         v, st = lean_replay(model, [("garbage",)], r.prog.workers, False)
         stat["malformed-token"][0] += 1
         stat["malformed-token"][1] += 1 if v.startswith("viol") else 0
+        for name, rq in req_log_mutants(r.evs) + [("reqm-malformed-token", [("garbage",)])]:
+            v, st = lean_req_replay(model, rq)
+            stat[name][0] += 1
+            if v.startswith("viol"):
+                stat[name][1] += 1
+            else:
+                accepted.append(f"{name} on {r.prog.name}")
     return {k: {"mutants": a, "rejected": b} for k, (a, b) in stat.items()}, accepted
 
 
@@ -969,6 +1241,7 @@ def run_check(pid, modules, theorems, keys, build_programs, argv, meta, want_for
     samples = []
     other = defaultdict(int)
     stop_agg = defaultdict(int)
+    req_agg = defaultdict(int)
     for r in results:
         p = r.prog
         for k2, v in r.stopstats.items():
@@ -987,7 +1260,16 @@ def run_check(pid, modules, theorems, keys, build_programs, argv, meta, want_for
         if r.verdict.startswith("viol"):
             parts = r.verdict.split(" ", 2)
             found.append((parts[1], parts[2] if len(parts) > 2 else ""))
+        if r.req_verdict.startswith("viol"):
+            parts = r.req_verdict.split(" ", 2)
+            found.append((parts[1], "requester monitor (Model/Requesters.lean): " + (parts[2] if len(parts) > 2 else "")))
         found += r.oracle
+        for k2, v in (r.req_stats or {}).items():
+            req_agg["monitor:" + k2] += v
+        for k2, v in r.gc2stats.items():
+            req_agg[k2] += v
+        if "gc2" in p.tags:
+            req_agg["gc2_programs"] += 1
         mine = [(k, w) for k, w in found if k in keys]
         for k, w in found:
             if k not in keys:
@@ -1020,6 +1302,13 @@ def run_check(pid, modules, theorems, keys, build_programs, argv, meta, want_for
                                     f"only {stop_agg['forkgc_programs_with_request_during_gc']} of {stop_agg['forkgc_programs']} "
                                     "`forkgc` programs made their stop request while a Gc goal was current",
                                     None, None, None, False, broken="hx_gc `forkgc` (request during a collection)"))
+    # the simultaneous-request programs must actually produce merged requests (otherwise the harness op is broken)
+    if req_agg.get("gc2_programs") and "sched:gc2-vacuous" in keys and not any(v.found_input for v in violations) \
+            and req_agg.get("log:requests_while_another_requester_in_flight", 0) * 2 < req_agg.get("rounds", 0):
+        violations.append(Violation("sched:gc2-vacuous",
+                                    f"only {req_agg.get('log:requests_while_another_requester_in_flight', 0)} requests were made while "
+                                    f"another requester was in flight in {req_agg.get('rounds', 0)} `gc2`/`gcn` rounds",
+                                    None, None, None, False, broken="hx_gc `gc2` (simultaneous requests)"))
     selftest, accepted = monitor_selftest(E.model_exe(), results)
     if accepted:
         violations.append(Violation("sched:monitor-accepts-corrupted-log",
@@ -1040,6 +1329,7 @@ def run_check(pid, modules, theorems, keys, build_programs, argv, meta, want_for
         "monitor_totals": dict(agg), "distribution": dict(dist), "harness_build_s": builds, "lean_s": lean.get("lean_s"),
         "failures_owned_by_other_sched_properties": dict(other),
         "stop_requests": dict(stop_agg),
+        "requesters": dict(req_agg),
         "monitor_selftest_corrupted_logs": selftest, **extra_cov,
     }
     return E.finish(pid, a.tier, a.seed, t0, lean, corr, violations, level="proof of the model; partial w.r.t. the code",
@@ -1065,8 +1355,10 @@ def replay(pid, path, keys):
         evs = [tuple(int(x) for x in l.split(":")) for l in open(evf).read().split()]
         verdict, st = lean_replay(E.model_exe(), annotate(evs, workers), workers, plan == "ConcurrentImmix")
         orc = oracle(evs, 0, [], stages, None)
-        print(f"recorded log: monitor: {verdict[:300]} oracle: {orc}")
-        if verdict.startswith("viol") or orc:
+        rv, _ = lean_req_replay(E.model_exe(), req_tokens(evs))
+        orc += oracle_requesters([], [], evs, True, plan == "ConcurrentImmix")[0]
+        print(f"recorded log: monitor: {verdict[:300]} requester monitor: {rv[:300]} oracle: {orc}")
+        if verdict.startswith("viol") or rv.startswith("viol") or orc:
             bad += 1
     for attempt in range(5):
         p = subprocess.run([exe], input="\n".join(lines) + "\n", capture_output=True, text=True, timeout=300)
@@ -1075,8 +1367,11 @@ def replay(pid, path, keys):
         verdict, st = lean_replay(E.model_exe(), annotate(evs, workers), workers, plan == "ConcurrentImmix")
         cons = constraints_of(out)
         orc = oracle(evs, p.returncode, out, stages, cons.get("fwdafterliveness") in ("1", "true"))
-        print(f"run {attempt}: rc={p.returncode} monitor: {verdict[:300]} oracle: {orc}")
-        if verdict.startswith("viol") or orc:
+        rv, _ = lean_req_replay(E.model_exe(), req_tokens(evs))
+        orc += oracle_requesters(lines, out, evs, cons.get("collects", "1") in ("1", "true"),
+                                 cons.get("concurrent") in ("1", "true"))[0]
+        print(f"run {attempt}: rc={p.returncode} monitor: {verdict[:300]} requester monitor: {rv[:300]} oracle: {orc}")
+        if verdict.startswith("viol") or rv.startswith("viol") or orc:
             bad += 1
     print("REPLAY:", "violation reproduced" if bad else "no longer reproduces (5 runs; schedules vary)")
     return 1 if bad else 0
